@@ -140,7 +140,8 @@ def _set_data(ctx: Ctx, c: Collector) -> None:
             d0, d1, d2 = (items_iter(i) for i in e.iters)
             if d0 and d1 and d2:
                 src_full, attr, val = d0[1], d2[1], d2[2]
-                if e.term[1][0] != "idx" or e.term[1][2] != src_full or e.term[2] != val or not T.contains(e.term[1], attr):
+                tgt_full = unalias(e.term[1], s, fi)
+                if tgt_full[0] != "idx" or tgt_full[2] != src_full or e.term[2] != val or not T.contains(tgt_full, attr) or not any(x[0] == "attr" and x[2] == "inputs_from_set_data" for x in T.subterms(tgt_full)):
                     pr.append("values are not filed as buffer[eid][attr][source full id] = value")
         else:
             pr.append("set_data does not iterate source -> destination -> attribute")
